@@ -35,8 +35,18 @@ def rng(seed, prop, stream="main"):
 
 # ---- helpers mirrored in lean/WS/Base/Bytes.lean ---------------------------------------
 
+_GEN_BASE = bytes((131 * r) % 256 for r in range(256))
+_SHIFT = [bytes((x + k) % 256 for x in range(256)) for k in range(256)]
+
+
 def gen_bytes(length, seed):
-    return bytes((31 * seed + 131 * i + i // 256) % 256 for i in range(length))
+    """b[i] = (31*seed + 131*i + i//256) % 256, block-wise (131*256*q vanishes mod 256)."""
+    out = bytearray()
+    q = 0
+    while len(out) < length:
+        out += _GEN_BASE.translate(_SHIFT[(31 * seed + q) % 256])
+        q += 1
+    return bytes(out[:length])
 
 
 def fnv1a(bs):
@@ -47,10 +57,11 @@ def fnv1a(bs):
 
 
 def summarize(bs):
+    import zlib
     bs = bytes(bs)
     if len(bs) <= 64:
         return "h" + bs.hex()
-    return f"L{len(bs)}:{fnv1a(bs)}:{bs[:32].hex()}:{bs[-32:].hex()}"
+    return f"L{len(bs)}:{zlib.crc32(bs)}:{bs[:32].hex()}:{bs[-32:].hex()}"
 
 
 def hexarg(bs):
